@@ -186,19 +186,32 @@ def check_proc_descs(entry, sec, allow_plugins, problems, where, ctx):
 FOCUS_KINDS = {"C02": ("PH", "UH", "EH", "MT", "LP"), "C03": ("SRC",), "C04": ("UD", "ED", "GEN")}
 
 
-def run_case(pel, ctx, focus, allow_plugins=True, reg=(), tag=""):
-    """Decode one well-formed PEL and apply the monitors of property `focus`."""
+def run_case(pel, ctx, focus, allow_plugins=True, reg=(), tag="", outcome=None):
+    """Decode one well-formed PEL and apply the monitors of property `focus`.  `outcome`: the document was produced by
+    a peltool command line (run_cli_modes) instead of a direct parsePEL call."""
     data = pel.encode()
     cfg = harness.make_config(every_pel=True, allow_plugins=allow_plugins)
     secs = pel.all_sections()
     labels = [kind_label(s) for s in secs]
     ctx.current = {"pel_hex": data if len(data) < 3000 else data[:3000], "len": len(data), "sections": labels,
-                   "notes": [s.note for s in secs if s.note], "allow_plugins": allow_plugins, "creator": pel.creator}
+                   "notes": [s.note for s in secs if s.note], "allow_plugins": allow_plugins, "creator": pel.creator,
+                   "command_line": tag if outcome is not None else None}
     if focus == "C01":
         harness.READLOG.start()
         HEADERLOG.positions = []
     fxlog.reset()
-    o = harness.decode(data, cfg)
+    embed = None
+    if outcome is None and focus != "C01" and len(data) % 7 == 3:
+        # the PEL inside a larger stream (a container / the previous PEL before it, something else after it) with the
+        # cursor on its first byte: parsePEL decodes from the cursor, not from offset 0
+        prev = run_case.previous or b"\x00container\xff"
+        embed = (prev[-(1 + len(data) % 97):], b"next" + data[:8])
+        ctx.count("embedded-in-larger-stream")
+    run_case.previous = data
+    o = outcome if outcome is not None else harness.decode(data, cfg, embed=embed)
+    if embed and o.final_index is not None and o.kind == "doc" and o.final_index != len(data):
+        ctx.violation("%s/embedded-cursor-end" % focus, "PEL of %d bytes decoded from inside a larger stream: the cursor ended "
+                      "%d bytes after its start" % (len(data), o.final_index), data=data)
     events = harness.READLOG.stop() if focus == "C01" else None
     nontrivial = len(pel.sections) >= 1
     ctx.case(data, nontrivial, sample={"sections": labels, "len": len(data), "head_hex": data[:64].hex()})
@@ -290,6 +303,9 @@ def run_case(pel, ctx, focus, allow_plugins=True, reg=(), tag=""):
     return o
 
 
+run_case.previous = None
+
+
 def setup(spec):
     if spec.get("bmc"):
         harness.bmc_layout(spec["bmc"])
@@ -298,3 +314,68 @@ def setup(spec):
         harness.READLOG.install()
         HEADERLOG.attach()
     return r
+
+
+def run_cli_modes(spec, ctx, focus, rng, u, reg, kinds, creators="OOOBMX"):
+    """The full-display modes of the tool (-f, -i, --bmc-id, -j) reached through main(), alone and with options on the same
+    command line that do not apply to the chosen mode (lower-precedence mode options, --clean / --output-dir for the
+    display modes, either spelling): the document shown for the PEL is checked exactly like a direct decode."""
+    import json
+    import os
+    import shutil
+    from vf import cliparse, dirs
+    root = harness.scratch_root()
+    for i in range(spec["n"]):
+        d = os.path.join(root, "cm%d" % i)
+        out = os.path.join(root, "cm%d-out" % i)
+        for x in (d, out):
+            shutil.rmtree(x, ignore_errors=True)
+            os.makedirs(x)
+        creator = rng.choice(creators)
+        plugins = rng.random() < 0.8
+        pel = gen.gen_pel(rng, u, creator=creator, reg=reg, kinds=kinds, nopt=rng.choice([1, 2, 3, 4]), primary=True,
+                          plugins_enabled=plugins)
+        other = gen.gen_pel(rng, u, creator=creator, reg=reg, kinds=kinds, nopt=1, primary=True)
+        if len({pel.eid, other.eid}) < 2 or len({pel.bmcid, other.bmcid}) < 2:
+            continue
+        names = ["%s_%08X" % (t, p.eid) for t, p in (("2025010112000000", pel), ("2025010112000001", other))]
+        for nm, p in zip(names, (pel, other)):
+            with open(os.path.join(d, nm), "wb") as f:
+                f.write(p.encode())
+        excl = os.path.join(root, "cm-excl.txt")
+        with open(excl, "w") as f:
+            f.write("ZZZZZZZZ\n")
+        src = pel.primary_src().m["refcode"][:4] if pel.primary_src() else "BD"
+        for mode in ("-f", "-i", "--bmc-id", "-j"):
+            for with_soup in (False, True, True):
+                base = {"-f": ["-f", os.path.join(d, names[0])], "-i": ["-p", d, "-i", "%08X" % pel.eid],
+                        "--bmc-id": ["-p", d, "--bmc-id", str(pel.bmcid)], "-j": ["-p", d, "-j", "-o", out]}[mode]
+                soup = cliparse.dominated_options(rng, mode, eid=other.eid, plid=other.plid, src=src, excl=excl,
+                                                  outdir=out, allow_clean=False) if with_soup else []
+                soup = [x for x in soup if x not in ("-c", "--clean")] + ["-E"] + ([] if plugins else ["-P"])
+                argv = base + soup
+                for fn in os.listdir(out):
+                    os.unlink(os.path.join(out, fn))
+                rc, so, se, tb = harness.cli(argv)
+                ctx.count("cli.mode_runs")
+                if with_soup:
+                    ctx.count("cli.mode_runs_with_dominated_options")
+                text = so
+                if mode == "-j":
+                    fn = [f for f in os.listdir(out) if dirs.is_json_name(f, names[0], pel.eid)]
+                    text = open(os.path.join(out, fn[0])).read() if fn else ""
+                o = harness.Outcome()
+                o.err = se
+                try:
+                    o.doc = json.loads(text)
+                    o.pairs = json.loads(text, object_pairs_hook=list)
+                    o.text = text
+                except ValueError as e:
+                    o.exc = e
+                if tb:
+                    o.exc = RuntimeError(tb[-300:])
+                    o.doc = None
+                label = " ".join(a if not a.startswith(root) else "<%s>" % os.path.basename(a) for a in argv)
+                run_case(pel, ctx, focus, allow_plugins=plugins, reg=reg, tag="peltool " + label, outcome=o)
+        shutil.rmtree(d, ignore_errors=True)
+        shutil.rmtree(out, ignore_errors=True)
